@@ -1,9 +1,31 @@
-// harness/C14/h.cpp — runs the real Factored/Utils/Core.cpp functions on exact cases.
+// harness/C14/h.cpp — runs the real Factored/Utils functions on exact cases.
 #include <AIToolbox/Factored/Utils/Core.hpp>
 #include "vio.hpp"
+bool algebraCase(const std::string & kind, vio::Cursor & c, vio::Out & o);   // h_algebra.cpp
 using namespace AIToolbox::Factored;
 
 static Factors readFactors(vio::Cursor & c) { auto v = c.nextSizes(); return Factors(v.begin(), v.end()); }
+
+// prints: getFactorToSkipId size keys  n v_1 … v_n   (each v_i a count-prefixed list)
+static void dumpEnum(PartialFactorsEnumerator & e, vio::Out & o) {
+    o << e.getFactorToSkipId() << e.size();
+    o.list(e->first);
+    const size_t cap = e.size() + 3;
+    std::vector<PartialValues> seen;
+    for (size_t n = 0; e.isValid() && n < cap; e.advance(), ++n) seen.push_back(e->second);
+    o << seen.size();
+    for (auto & v : seen) o.list(v);
+    // reset() must bring the enumerator back to its first element
+    e.reset();
+    o << e.isValid();
+    o.list(e->second);
+}
+
+static void dumpIndexEnum(PartialIndexEnumerator & e, size_t cap, vio::Out & o) {
+    std::vector<size_t> seen;
+    for (size_t n = 0; e.isValid() && n < cap; e.advance(), ++n) seen.push_back(*e);
+    o.list(seen);
+}
 
 int main(int argc, char ** argv) {
     return vio::runCases(argc, argv, [](vio::Cursor & c, vio::Out & o) {
@@ -25,6 +47,72 @@ int main(int argc, char ** argv) {
             Factors space = readFactors(c); PartialKeys keys = readFactors(c); Factors f = readFactors(c);
             size_t id = toIndexPartial(keys, space, f);
             o << id; o.list(toFactorsPartial(keys, space, id));
-        } else throw std::logic_error("unknown case kind " + kind);
+        } else if (kind == "enum") {    // space keys
+            Factors space = readFactors(c); PartialKeys keys = readFactors(c);
+            PartialFactorsEnumerator e(space, keys); dumpEnum(e, o);
+        } else if (kind == "enumall") { // space
+            Factors space = readFactors(c);
+            PartialFactorsEnumerator e(space); dumpEnum(e, o);
+        } else if (kind == "enumskip") { // space keys skip missing
+            Factors space = readFactors(c); PartialKeys keys = readFactors(c);
+            size_t skip = c.nextSize(); bool missing = c.nextSize() != 0;
+            PartialFactorsEnumerator e(space, keys, skip, missing); dumpEnum(e, o);
+        } else if (kind == "enumskipall") { // space skip
+            Factors space = readFactors(c); size_t skip = c.nextSize();
+            PartialFactorsEnumerator e(space, skip); dumpEnum(e, o);
+        } else if (kind == "ienum") {   // space keys fixed val missing
+            Factors space = readFactors(c); PartialKeys keys = readFactors(c);
+            size_t fixed = c.nextSize(), val = c.nextSize(); bool missing = c.nextSize() != 0;
+            PartialIndexEnumerator e(space, keys, fixed, val, missing);
+            dumpIndexEnum(e, factorSpace(space) + 3, o);
+        } else if (kind == "ienumall") { // space fixed val
+            Factors space = readFactors(c); size_t fixed = c.nextSize(), val = c.nextSize();
+            PartialIndexEnumerator e(space, fixed, val);
+            dumpIndexEnum(e, factorSpace(space) + 3, o);
+        } else if (kind == "merge") {   // lk lv rk rv
+            PartialKeys lk = readFactors(c); PartialValues lv = readFactors(c);
+            PartialKeys rk = readFactors(c); PartialValues rv = readFactors(c);
+            PartialFactors m = merge(PartialFactors{lk, lv}, PartialFactors{rk, rv});
+            o.list(m.first); o.list(m.second);
+            o.list(merge(lk, lv, rk, rv));
+            std::vector<std::pair<size_t, size_t>> matches;
+            o.list(merge(lk, rk, &matches));
+            o << matches.size();
+            for (auto & m2 : matches) o << m2.first << m2.second;
+            o.list(merge(lk, rk));
+        } else if (kind == "rmf") {     // keys vals f
+            PartialKeys k = readFactors(c); PartialValues v = readFactors(c); size_t f = c.nextSize();
+            PartialFactors r = removeFactor(PartialFactors{k, v}, f);
+            o.list(r.first); o.list(r.second);
+        } else if (kind == "match") {   // lk lv rk rv
+            PartialKeys lk = readFactors(c); PartialValues lv = readFactors(c);
+            PartialKeys rk = readFactors(c); PartialValues rv = readFactors(c);
+            o << match(PartialFactors{lk, lv}, PartialFactors{rk, rv}) << match(lk, lv, rk, rv);
+        } else if (kind == "matchf") {  // lhs(full) rk rv
+            Factors lhs = readFactors(c); PartialKeys rk = readFactors(c); PartialValues rv = readFactors(c);
+            o << match(lhs, PartialFactors{rk, rv});
+        } else if (kind == "matchk") {  // keys lhs rhs
+            PartialKeys k = readFactors(c); Factors lhs = readFactors(c); Factors rhs = readFactors(c);
+            o << match(k, lhs, rhs);
+        } else if (kind == "matchp") {  // lk rk lhs rhs  (pairs from merge)
+            PartialKeys lk = readFactors(c); PartialKeys rk = readFactors(c);
+            Factors lhs = readFactors(c); Factors rhs = readFactors(c);
+            std::vector<std::pair<size_t, size_t>> matches;
+            merge(lk, rk, &matches);
+            o << match(matches, lhs, rhs);
+        } else if (kind == "chk") {     // space tag
+            Factors space = readFactors(c); PartialKeys tag = readFactors(c);
+            auto r = checkTag(space, tag);
+            o << (size_t) r.first << r.second;
+        } else if (kind == "kpf") {     // ids space pk pv -> toIndexPartial(ids, space, pf), toIndex(space, pf)
+            PartialKeys ids = readFactors(c); Factors space = readFactors(c);
+            PartialKeys pk = readFactors(c); PartialValues pv = readFactors(c);
+            o << toIndexPartial(ids, space, PartialFactors{pk, pv}) << toIndex(space, PartialFactors{pk, pv});
+        } else if (kind == "iskip") {   // ids space f toModify
+            PartialKeys ids = readFactors(c); Factors space = readFactors(c); Factors f = readFactors(c);
+            size_t m = c.nextSize();
+            auto r = toIndexPartialAndSkip(ids, space, f, m);
+            o << r.first << r.second;
+        } else if (!algebraCase(kind, c, o)) throw std::logic_error("unknown case kind " + kind);
     });
 }
